@@ -137,8 +137,51 @@ def run(ctx):
                            "before": [x.decode("utf-8", "replace") for x in b], "after": None if a is None else [x.decode("utf-8", "replace") for x in a],
                            "expected_after": None if e is None else [x.decode("utf-8", "replace") for x in e],
                            "explain": "C10_exact: the removed entries are exactly the matched ones, a directory only once empty; everything else unchanged"})
+        followed_links(ctx, forest)
     finally:
         forest.close()
+
+
+def followed_links(ctx, forest):
+    """"A symbolic link is removed itself, never its target" where the follow mode resolves the link: under -L a matched link to a
+    directory (or file), under -H a starting point that is such a link.  The expression matches the links by name only, so nothing
+    reached through them is matched."""
+    rng = ctx.rng
+    n = 40 if ctx.thorough else 8
+    for k in range(n):
+        base = os.path.join(forest.dir, b"fl%d" % k)
+        os.makedirs(os.path.join(base, b"root", b"sub"))
+        os.makedirs(os.path.join(base, b"elsewhere", b"deep"))
+        open(os.path.join(base, b"root", b"sub", b"file"), "wb").close()
+        open(os.path.join(base, b"root", b"plain"), "wb").close()
+        open(os.path.join(base, b"elsewhere", b"keep"), "wb").close()
+        empty = rng.random() < 0.5
+        tdir = b"../elsewhere/deep" if empty else b"../elsewhere"
+        links = {b"lnk_d": tdir, b"lnk_f": b"plain", b"lnk_in": b"sub", b"lnk_dang": b"nowhere"}
+        chosen = [x for x in sorted(links) if rng.random() < 0.7] or [b"lnk_d"]
+        for nm in chosen:
+            os.symlink(links[nm], os.path.join(base, b"root", nm))
+        os.symlink(b"elsewhere/deep", os.path.join(base, b"rootlink"))
+        mode = rng.choice([b"-L", b"-L", b"-H"])
+        if mode == b"-L":
+            args = [b"-L", b"root", b"-sorted", b"-name", b"lnk_*", b"-delete"]
+            gone = [os.path.join(b"root", nm) for nm in chosen]
+        else:
+            args = [b"-H", b"rootlink", b"-sorted", b"-delete"]
+            gone = [b"rootlink"]
+        before = snapshot(base)
+        code, out, err = wc.decode_find(xc.run_impl(["find - %s %s" % (fw.hexs(base), xc.hexlist(args))])[0])
+        after = snapshot(base)
+        exp = {p: v for p, v in before.items() if p not in gone}
+        ctx.count(("followed-links", k, tuple(args), tuple(chosen), empty), True, ["followed-links", "mode=" + mode.decode()])
+        if after != exp or code != 0:
+            ctx.violation("find %s: exit %s; removed %s, expected exactly %s removed (the links themselves), stderr %r"
+                          % (b" ".join(args).decode(), code, sorted(x.decode() for x in set(before) - set(after)), sorted(x.decode() for x in gone),
+                             err.decode("utf-8", "replace")[:200]),
+                          {"property": "C10", "kind": "followed-link", "find_args": [a.decode() for a in args], "links": {a.decode(): b.decode() for a, b in links.items() if a in chosen},
+                           "exit": code, "removed": sorted(x.decode() for x in set(before) - set(after)), "expected_removed": sorted(x.decode() for x in gone),
+                           "changed": sorted(x.decode() for x in before if x in after and before[x] != after[x]),
+                           "explain": "a symbolic link is removed itself (unlink), never its target, also where the follow mode shows it as a directory"})
 
 
 def replay(ctx, rep):
